@@ -25,6 +25,8 @@ Contract file format (line oriented):
                           literal ANCHOR (whitespace-insensitive, must match once)
   @proof before-each|after-each ANCHOR   the same at EVERY occurrence (at least one): "each
                           statement of this shape owes this justification"
+  @proof before-any|after-any ANCHOR     the same, zero occurrences allowed (ghost bookkeeping of
+                          a statement whose absence must show up in a later obligation)
   @sig OLD => NEW         literal replacement inside the signature (e.g. `mut self`)
   @closure |PARAMS| => |TYPED PARAMS| -> (NAME: T)
                           the closure header |PARAMS| (must occur once in the body, after the
@@ -137,7 +139,7 @@ def parse_contracts(path):
                 if rest.strip() in ("end", "close"):
                     rest = rest.strip() + " <end-of-body>"
                 where, anchor = rest.split(None, 1)
-                assert where in ("before", "after", "end", "close", "before-each", "after-each"), where
+                assert where in ("before", "after", "end", "close", "before-each", "after-each", "before-any", "after-any"), where
                 section = "proof"
                 arg = (where, anchor.strip())
             elif tag == "sig":
@@ -403,7 +405,7 @@ class Gen:
         exact_norm = set()
         spans = {}
         for where, anchor, text in ctr.proofs:
-            if where in ("end", "close", "before-each", "after-each"):
+            if where in ("end", "close", "before-each", "after-each", "before-any", "after-any"):
                 continue
             sp = _find_anchor(body, anchor)
             spans[anchor] = sp
@@ -418,12 +420,12 @@ class Gen:
                 # right before the closing brace of the body (bodies without a tail expression)
                 ins.append((body.rstrip().rfind("}"), "\n" + text))
                 continue
-            if where in ("before-each", "after-each"):
+            if where in ("before-each", "after-each", "before-any", "after-any"):
                 hits = _find_all_anchors(body, anchor)
-                if not hits:
+                if not hits and where.endswith("-each"):
                     raise Undecided("%s: anchor not found: %r" % (key, anchor))
                 for a, b in hits:
-                    if where == "before-each":
+                    if where.startswith("before"):
                         p = body.rfind("\n", 0, a) + 1
                         p = p or 1
                     else:
